@@ -310,7 +310,7 @@ Qed.
 Theorem prune_subtree_spec id upd_bip sup t rooted : NoDup (ids t) -> t_id t <> id ->
   exists r, restrictG sup (not_id id) (not_id id) np_true t = Some r /\
             prune_subtree id upd_bip sup (t, rooted) =
-            IOk ([], fst (with_update upd_bip rooted r), snd (with_update upd_bip rooted r)).
+            IOk ([], fst (with_update upd_bip sup rooted r), snd (with_update upd_bip sup rooted r)).
 Proof.
   intros Hnd Hne. unfold prune_subtree. destruct (Z.eqb_spec (t_id t) id) as [E|_]; [contradiction|].
   rewrite finish_eq.
